@@ -35,6 +35,7 @@ static std::string esc(std::string const& s)
 
 static std::vector<std::string> g_keys;
 static int g_second = 0;    // workers of a second pool ("--probe-second=k")
+static std::vector<std::string> g_cfg;    // entries for init_params::cfg ("--probe-cfg=key=value")
 static std::string g_out;
 
 int pika_main(int argc, char** argv)
@@ -106,6 +107,7 @@ int main(int argc, char** argv)
         std::string a = argv[i];
         if (a.rfind("--probe-key=", 0) == 0) g_keys.push_back(a.substr(12));
         else if (a.rfind("--probe-second=", 0) == 0) g_second = std::atoi(a.substr(15).c_str());
+        else if (a.rfind("--probe-cfg=", 0) == 0) g_cfg.push_back(a.substr(12));    // init_params::cfg entry
         else av.push_back(argv[i]);
     }
     int rc = -100;
@@ -113,6 +115,7 @@ int main(int argc, char** argv)
     try
     {
         pika::init_params ip;
+        ip.cfg = g_cfg;
         // application options (C16: non-pika arguments must reach the entry function unchanged)
         pika::program_options::options_description desc("probe options");
         desc.add_options()("app-n", pika::program_options::value<int>(), "an application option")(
